@@ -35,6 +35,22 @@ const ADM_F: Profile = Profile {
     name: "ADM",
     faults: true,
 };
+const ORA: Profile = Profile {
+    name: "ORA",
+    faults: false,
+};
+const ORA_F: Profile = Profile {
+    name: "ORA",
+    faults: true,
+};
+const EMI: Profile = Profile {
+    name: "EMI",
+    faults: false,
+};
+const EMI_F: Profile = Profile {
+    name: "EMI",
+    faults: true,
+};
 const AUTH: Profile = Profile {
     name: "AUTH",
     faults: false,
@@ -178,11 +194,27 @@ pub fn plan(id: &str) -> Option<Plan> {
             thorough_runs: 8_000,
             rule: "two-group worlds running market, transaction-shape and administrator activity; for each sampled accepted transaction (<= 60 per run, biased to instruction kinds not yet swept) EVERY single mutation is executed on a fork: each role-signer slot unsigned and re-signed by every identity in the world, each bound slot replaced by each applicable foreign twin (other group/bank/vault/authority PDA, byte-identical clone owned by another program, clone at a wrong address, wrong account type, other token program, fake sysvar, other stored destination); one evaluation = one mutation; distinct = ix kind x slot x mutation kind x verdict",
         },
+        "C09" => Plan {
+            id: "C09",
+            level: "fault_enumeration",
+            profiles: vec![ORA, ORA_F, MKT_F],
+            quick_runs: 1200,
+            thorough_runs: 30_000,
+            rule: "oracle-fault profile: 16 Pyth / 12 Switchboard / fixed fault kinds (staleness at max_age -1/0/+1, confidence at 0 / max boundary / clamp region / over max, zero / negative / out-of-range price, partial verification, wrong discriminator, truncated, wrong owner, EMA divergence, omitted/misplaced/surplus oracle accounts) placed on banks someone holds a position in, then an operation depending on that price; after every oracle write and every clock advance the real price adapter is executed on a fork (pulse_bank_price_cache) and its verdict and value compared with the reference; one evaluation = one adapter probe or one judged borrow/withdraw/liquidation/bankruptcy; distinct = oracle kind x reference classification x verdict x trigger",
+        },
+        "C19" => Plan {
+            id: "C19",
+            level: "exploration",
+            profiles: vec![EMI, EMI_F, MKT, ADM],
+            quick_runs: 1600,
+            thorough_runs: 40_000,
+            rule: "fee/emissions profile interleaved with market activity: fee collection with buckets fractional / zero / above vault liquidity, admin and permissionless fee and insurance withdrawals, emissions set-up and top-up, settle / withdraw / permissionless withdraw with time advances; one evaluation = one judged collection, vault draw-down, settlement or payout; fee collection and bucket arithmetic are checked exactly (rationals), destinations are recomputed canonically (bank vaults, ATA of the global fee wallet, ATA of the stored emissions wallet); distinct = ix kind x bucket classes x liquidity class / settlement side x capped x dt",
+        },
         _ => return None,
     })
 }
 
-pub const ALL: &[&str] = &["C01", "C02", "C03", "C04", "C05", "C06", "C07", "C08", "C10", "C11", "C12", "C13", "C14", "C15", "C16", "C17"];
+pub const ALL: &[&str] = &["C01", "C02", "C03", "C04", "C05", "C06", "C07", "C08", "C09", "C10", "C11", "C12", "C13", "C14", "C15", "C16", "C17", "C19"];
 
 pub const ASSUMPTIONS: &[&str] = &[
     "native x86-64 build of the program (same Rust source, overflow-checks on) instead of SBF; compute-unit, heap and stack limits are not modelled",
